@@ -112,7 +112,7 @@ def scan(rd: cst.Reading) -> list[dict]:
                     n = op.node
                     while n is not None:
                         if n.type in ("binding", "inherit", "inherit_from") and \
-                                n.start_point[0] == op.row0 and n.start_point[1] == op_line_indent:
+                                n.start_byte == line_starts[op.row0] + op_line_indent:
                             judged = True
                             break
                         n = n.parent
